@@ -404,4 +404,102 @@ theorem burstOf_obj (f : Frame) (h : f.wf = true) : burstOf f.obj = .ok f.view :
     · simp only [c1, c2, if_true]; rfl
     · simp only [c1, c2]; rfl
 
+/-! ## histories -/
+
+namespace Heap
+
+theorem size_push (h : Heap) (x : Ipsc) : (h.push x).size = h.size + 1 := by
+  simp [push, size]
+
+theorem size_write (h : Heap) (r : Nat) (x : Ipsc) : (h.write r x).size = h.size := by
+  simp [write, size]
+
+theorem read_push_new (h : Heap) (x : Ipsc) : (h.push x).read h.size = some x := by
+  simp [push, read, size]
+
+theorem read_push_old (h : Heap) (x : Ipsc) (r : Nat) (hr : r < h.size) : (h.push x).read r = h.read r := by
+  simp only [push, read, size] at *
+  rw [List.getElem?_append_left hr]
+
+theorem read_write_ne (h : Heap) (r r' : Nat) (x : Ipsc) (hne : r ≠ r') : (h.write r x).read r' = h.read r' := by
+  simp only [write, read]
+  rw [List.getElem?_set_ne hne]
+
+end Heap
+
+namespace HOp
+
+theorem size_handOut_le (h : Heap) (r : Except Err Ipsc) : h.size ≤ (handOut h r).size := by
+  cases r <;> simp [handOut, Heap.size_push]
+
+theorem read_handOut_old (h : Heap) (res : Except Err Ipsc) (r : Nat) (hr : r < h.size) :
+    (handOut h res).read r = h.read r := by
+  cases res with
+  | error e => rfl
+  | ok x => exact Heap.read_push_old h x r hr
+
+/-- no step ever removes an object -/
+theorem size_run_le (h : Heap) (op : HOp) : h.size ≤ (op.run h).size := by
+  cases op with
+  | decRaw d => exact size_handOut_le _ _
+  | decKai d => exact size_handOut_le _ _
+  | burstRaw d => exact size_handOut_le _ _
+  | burstKai d => exact size_handOut_le _ _
+  | set r f v =>
+    simp only [run]
+    cases h.read r with
+    | none => exact Nat.le_refl _
+    | some x => rw [Heap.size_write]; exact Nat.le_refl _
+  | ser r => exact Nat.le_refl _
+
+/-- a step changes no object it is not aimed at: decoders and the serialiser touch nothing that was
+handed out before, an assignment touches only its own object -/
+theorem read_run_of_ne (h : Heap) (op : HOp) (r : Nat) (hr : r < h.size) (ht : op.target ≠ some r) :
+    (op.run h).read r = h.read r := by
+  cases op with
+  | decRaw d => exact read_handOut_old _ _ r hr
+  | decKai d => exact read_handOut_old _ _ r hr
+  | burstRaw d => exact read_handOut_old _ _ r hr
+  | burstKai d => exact read_handOut_old _ _ r hr
+  | set r' f v =>
+    simp only [run]
+    cases h.read r' with
+    | none => rfl
+    | some x =>
+      have : r' ≠ r := fun e => ht (by rw [e]; rfl)
+      exact Heap.read_write_ne h r' r _ this
+  | ser r' => rfl
+
+end HOp
+
+theorem size_runHistory_le (h : Heap) (ops : List HOp) : h.size ≤ (runHistory h ops).size := by
+  induction ops generalizing h with
+  | nil => exact Nat.le_refl _
+  | cons op ops ih =>
+    exact Nat.le_trans (HOp.size_run_le h op) (ih (op.run h))
+
+theorem read_runHistory (h : Heap) (ops : List HOp) (r : Nat) (hr : r < h.size)
+    (hops : ∀ op ∈ ops, op.target ≠ some r) : (runHistory h ops).read r = h.read r := by
+  induction ops generalizing h with
+  | nil => rfl
+  | cons op ops ih =>
+    have h1 := HOp.read_run_of_ne h op r hr (hops op (by simp))
+    have h2 : r < (op.run h).size := Nat.lt_of_lt_of_le hr (HOp.size_run_le h op)
+    have := ih (op.run h) h2 (fun o ho => hops o (by simp [ho]))
+    simp only [runHistory, List.foldl_cons] at this ⊢
+    rw [this, h1]
+
+/-- each of the four decoder entry points, on the octets of a well-formed frame, hands out one new
+object: the one the frame describes — whatever was handed out (and done to it) before -/
+theorem decoder_push (f : Frame) (hf : f.wf = true) (h : Heap) (op : HOp) (hop : op ∈ decoders f.bytes) :
+    op.run h = h.push f.obj := by
+  have hk : HOp.kept (.ok f.obj) = .ok f.obj := by
+    simp only [HOp.kept, burstOf_obj f hf]
+  simp only [decoders, List.mem_cons, List.not_mem_nil, or_false] at hop
+  rcases hop with rfl | rfl | rfl | rfl
+  · simp only [HOp.run, decode_raw f hf, HOp.handOut]
+  · simp only [HOp.run, decode_kaitai f hf, HOp.handOut]
+  · simp only [HOp.run, decode_raw f hf, hk, HOp.handOut]
+  · simp only [HOp.run, decode_kaitai f hf, hk, HOp.handOut]
+
 end Dmr.Ipsc
